@@ -15,6 +15,10 @@ import time
 VERIF = os.path.dirname(os.path.dirname(os.path.abspath(__file__)))
 PY = os.path.join(VERIF, '.venv', 'bin', 'python')
 WORK = os.environ.get('VERIF_WORK') or os.path.join(VERIF, '.work')
+# evidence describes /repo itself: a run against another tree (seeded-change rounds, development against a snapshot:
+# VERIF_REPO) leaves /verif/evidence alone and writes next to its scratch files
+EVIDENCE = (os.path.join(WORK, 'evidence') if os.environ.get('VERIF_REPO', '/repo').rstrip('/') != '/repo'
+            else os.path.join(VERIF, 'evidence'))
 EXIT_HARNESS_ERROR = 2
 
 TEMPLATE = '''import sys
@@ -387,7 +391,7 @@ def main(prop, tier='quick', seed=0, replay=None, only=None, jobs=None):
 
 def write_evidence(prop, tier, seed, h, conds, results, violations, twins, traces_ok, wall,
         harness_errors=None, trace_gaps=0, unlisted=0):
-    os.makedirs(os.path.join(VERIF, 'evidence'), exist_ok=True)
+    os.makedirs(EVIDENCE, exist_ok=True)
     results = results or {}
     paths = sum(r.get('paths', 0) for r in results.values())
     forks = sum(r.get('smt_forks', 0) for r in results.values())
@@ -433,4 +437,4 @@ def write_evidence(prop, tier, seed, h, conds, results, violations, twins, trace
         ],
         wall_s=round(wall, 1), violations=int(unlisted),
     )
-    json.dump(ev, open(os.path.join(VERIF, 'evidence', prop + '.json'), 'w'), indent=1, default=repr)
+    json.dump(ev, open(os.path.join(EVIDENCE, prop + '.json'), 'w'), indent=1, default=repr)
